@@ -212,8 +212,13 @@ def gen_callbacks(loader, check, types, kinds, replay_on=True, sections=None):
     def R(rkind, **kw):
         return mk_rp(rkind, **kw) if replay_on else None
 
-    for kind in (kinds if "cast_calls" in sections else []):
+    # a Cast operand whose own operand is a narrower signed value: (T2)(T1)x with everything signed and widening (sign-extension chains)
+    # (the Cast-based instances also bring a load operand along: a cast must not be folded into the node it converts)
+    cast_kinds = list(kinds) + (["Cast:signed-chain"] + (["MemLoad"] if "MemLoad" not in kinds else []) if "Cast" in kinds else [])
+    for kind in (cast_kinds if "cast_calls" in sections else []):
         for src in types:
+            if kind == "Cast:signed-chain" and not (src[0] and src[1] >= 16):
+                continue
             # operands that are not WF (today: BooleanOp, typed like its first operand without the BOOL
             # flag) are outside every callback precondition; the defect belongs to their constructor (C02/C10)
             for dst in types:
@@ -223,7 +228,9 @@ def gen_callbacks(loader, check, types, kinds, replay_on=True, sections=None):
                 # ---- init_a_cast / cast_expr ---------------------------------------
                 for meth in ("init_a_cast", "cast_expr"):
                     def setup(it, kind=kind, src=src, dst=dst):
-                        op = irkit.mk_operand(it, kind, src, "x")
+                        op = irkit.mk_operand(it, kind.split(":")[0], src, "x")
+                        if kind == "Cast:signed-chain":
+                            op.fields["ops"][0].fields["value_type"] = conc_vt(loader, (True, src[1] // 2))
                         t = tkit.mk_transformer(it, registered=[])
                         it.ctx.mark_pre(t, op)
                         return {"t": t, "op": op, "skip": bool(ir.wf_problems(op))}
@@ -249,7 +256,8 @@ def gen_callbacks(loader, check, types, kinds, replay_on=True, sections=None):
                         # frame: only the holder's counter/tables and the new node are written
                         bad = [(o, f) for (o, f, _, _) in p.ctx.pre_writes()
                                if not (o is p.state["t"].fields["il_ops_holder"] or o is p.state["t"].fields["ext"])]
-                        check.ob(f"{meth}#modifies", pi, p.ctx.pc, not bad, detail=str(bad[:3]))
+                        check.ob(f"{meth}#modifies", pi, p.ctx.pc, not bad, detail=str(bad[:3]),
+                                 replay=R("c03.cast_frame", meth=meth, kind=kind, src=list(src), dst=list(dst), chain=(kind == "Cast:signed-chain")))
 
     if "cast_operands" in sections:
         # ---- cast_operands ------------------------------------------------------------------
@@ -609,6 +617,38 @@ def _c_value(kind, src, dst, x):
     s, w = src
     v = x - (1 << w) if (s and x >> (w - 1)) else x
     return v % (1 << dst[1])
+
+
+@replay.register("c03.cast_frame")
+def replay_cast_frame(a):
+    """real init_a_cast / cast_expr on a real Cast operand (over a narrower signed variable when chain): the operand node keeps its type"""
+    from rzilcompiler.Transformer.RZILTransformer import RZILTransformer
+    from rzilcompiler.Transformer.Pures.Cast import Cast
+    from rzilcompiler.Transformer.Pures.Variable import Variable
+    from rzilcompiler.Transformer.ValueType import ValueType
+    from rzilcompiler.ArchEnum import ArchEnum
+    t = RZILTransformer(ArchEnum.HEXAGON)
+    src, dst = tuple(a["src"]), tuple(a["dst"])
+    inner_t = (True, src[1] // 2) if a.get("chain") else (False, 64 if src[1] != 64 else 32)
+    x = Variable("x", ValueType(*inner_t))
+    kind = a.get("kind", "Cast").split(":")[0]
+    if kind == "MemLoad":
+        from rzilcompiler.Transformer.Pures.MemLoad import MemLoad, MemAccessType
+        x = Variable("EA", ValueType(False, 32))
+        op = t.add_op(MemLoad("ml_EA", x, MemAccessType(ValueType(*src), True)))
+        inner_t = (False, 32)
+    elif kind == "Cast":
+        op = t.add_op(Cast("cast", ValueType(*src), x))
+    else:
+        op = x = _real_operand(kind, src, "x")
+        inner_t = src
+    before = (op.value_type.signed, op.value_type.bit_width, x.value_type.signed, x.value_type.bit_width)
+    if a["meth"] == "init_a_cast":
+        t.init_a_cast(ValueType(*dst), op)
+    else:
+        t.cast_expr([ValueType(*dst), op])
+    after = (op.value_type.signed, op.value_type.bit_width, x.value_type.signed, x.value_type.bit_width)
+    return before != after, f"{a['meth']}(({tname(dst)}) <{kind}:{tname(src)}> over x:{tname(inner_t)}): operand types before {before}, after {after}"
 
 
 @replay.register("c03.callback")
